@@ -867,12 +867,21 @@ func mmEngine(root []MNode, files map[string][]MNode, globals, ctx Val) (string,
 	}
 	fs["/root.tpl"] = mmSrc(root)
 	set := pongo2.NewSet("mm", newMemLoader(fs))
+	// every other global is put into the set only after the root template has been compiled: the
+	// set's globals are visible in every template of the set, whenever it was created
 	for i, k := range globals.Ks {
-		set.Globals[k.Str()] = Build(globals.E[i])
+		if i%2 == 0 {
+			set.Globals[k.Str()] = Build(globals.E[i])
+		}
 	}
 	tpl, err := set.FromFile("/root.tpl")
 	if err != nil {
 		return "", fmt.Errorf("compile: %w", err), nil, set
+	}
+	for i, k := range globals.Ks {
+		if i%2 == 1 {
+			set.Globals[k.Str()] = Build(globals.E[i])
+		}
 	}
 	c := BuildContext(ctx)
 	out, err := tpl.Execute(c)
